@@ -44,8 +44,16 @@ def check(ctx, src):
     # --- isolation
     init = hr.func("HyReader.__init__")
     rinit = rd.func("Reader.__init__")
-    ctx.check(pyq.contains(init, lambda n: isinstance(n, ast.Assign) and norm(n) == "self.reader_macros = {}") is not None, "ISOLATION", f"{HR}|HyReader.__init__|reader_macros", "reader_macros must be a fresh dict per reader", HR, init.lineno,
-              witness="a reader macro defined while reading module A is visible when reading module B", detail="{}")
+    rmv = [n.value for n in ast.walk(init) if isinstance(n, ast.Assign) and len(n.targets) == 1 and norm(n.targets[0]) == "self.reader_macros"]
+    fresh = None
+    if rmv:
+        v0 = rmv[0]
+        if isinstance(v0, (ast.Dict, ast.DictComp)) or (isinstance(v0, ast.Call) and (dotted(v0.func) == "dict" or (isinstance(v0.func, ast.Attribute) and v0.func.attr == "copy"))):
+            fresh = True
+        elif isinstance(v0, (ast.Name, ast.Attribute)):
+            fresh = False
+    ctx.decide("ISOLATION", f"{HR}|HyReader.__init__|reader_macros", fresh, f"reader_macros must be a fresh dict per reader (it is bound to `{norm(rmv[0]) if rmv else None}`)", HR, init.lineno,
+               witness="a reader macro defined while reading module A is visible when reading module B", detail="{}")
     ctx.check(pyq.contains(rinit, lambda n: isinstance(n, ast.Assign) and norm(n) == "self.reader_table = self.DEFAULT_TABLE.copy()") is not None, "ISOLATION", f"{RD}|Reader.__init__|reader_table", "reader_table must be a copy of DEFAULT_TABLE", RD, rinit.lineno, detail="DEFAULT_TABLE.copy()")
     wr = [n for m in (hr, rd) for n in ast.walk(m.tree) if isinstance(n, (ast.Assign, ast.AugAssign, ast.Delete)) and "DEFAULT_TABLE" in norm(n.targets[0] if isinstance(n, ast.Assign) else n.target if isinstance(n, ast.AugAssign) else n)
           and m.qual_of(n) not in ("ReaderMeta.__new__",)]
